@@ -149,6 +149,7 @@ Definition policy_answer (pol : Z) (u : list rfile) (sent : list bytes) (f : rfi
          end
   | 3 => rev (closure_of u f)
   | 4 => flat_map (fun x => [x; x]) (closure_of u f)
+  | 7 => f :: flat_map (fun d => match u_find d u with Some df => [df] | None => [] end) (rf_deps f)
   | 5 => if by_symbol then match filter (fun x => negb (bytes_eqb (rf_name x) (rf_name f))) u with x :: _ => [x] | [] => [f] end else [f]
   | _ => closure_of u f
   end.
@@ -201,13 +202,21 @@ Definition run_c05 (v : val) : val :=
 
 (* the property, from the universe alone:
    1: a description was delivered whose services are not exactly the listed valid, non-administrative ones with the universe's definitions
+   3: a conformant server with a complete descriptor set got an error report instead of a description
    2: a description was delivered although a listed service's definition or a dependency could not be obtained (partial description) *)
 Definition prop_c05 (input impl : val) : option Z :=
   let u := map as_rfile (as_L (nthv 0 input)) in
   let listed := map as_S (as_L (nthv 1 input)) in
   let names := sort_names (filter_names ignore_prefixes [] listed) in
   match as_L impl with
-  | [] => None                                        (* an error report: never wrong by itself; correspondence judges when it is due *)
+  | [] =>
+      (* an error report is wrong when the server is conformant (policies other than 5, 6), every dependency exists in its
+         universe and the recursion limit cannot be the cause; otherwise correspondence judges when it is due *)
+      let pol := as_Z (nthv 2 input) in
+      if negb (Z.eqb pol 5) && negb (Z.eqb pol 6) && Nat.leb (length u) (as_nat (nthv 3 input))
+         && forallb (fun f => forallb (fun d => mem_b d (map rf_name u)) (rf_deps f)) u
+         && match describe names u with Some _ => true | None => false end
+      then Some 3 else None
   | [svcs] =>
       match describe names u with
       | Some want => if val_eqb svcs (VL (map v_rservice want)) then None else Some 1
